@@ -3,6 +3,7 @@ pub mod c02;
 pub mod c03;
 pub mod c04;
 pub mod c05;
+pub mod c06;
 pub mod c08;
 pub mod c09;
 pub mod c11;
@@ -18,6 +19,7 @@ pub fn dispatch(ctx: &Ctx) -> Option<Coverage> {
         "C03" => c03::run(ctx),
         "C04" => c04::run(ctx),
         "C05" => c05::run(ctx),
+        "C06" => c06::run(ctx),
         "C08" => c08::run(ctx),
         "C09" => c09::run(ctx),
         "C10" => c02::run_c10(ctx),
